@@ -142,6 +142,12 @@ def fullDest (t : Tree) (x : Transfer) (src : Loc) : Path × Option Kind :=
   else if m = .destIsTarget ∧ x.dest.slash then (x.dest.path, some .dir)
   else (x.dest.path, dt)
 
+/-- `staturl(dest)` inside `Copier._dest_type` (INFER_DEST, one source, no trailing slash) catches only FileNotFoundError:
+when an ancestor of `dest` is a regular file the OS answers ENOTDIR and NotADirectoryError escapes from `_full_dest` -/
+def destStatFails (t : Tree) (x : Transfer) : Bool :=
+  effMode x = .inferDest && x.single &&
+    (List.range x.dest.path.length).any (fun k => 0 < k && isFile (t.get (x.dest.path.take k)))
+
 def writeAll (t : Tree) (fd : Path) (fs : List (Path × List Nat)) : Except Err Tree :=
   fs.foldlM (fun t f => writeFile t (fd ++ f.1) f.2) t
 
@@ -150,10 +156,12 @@ def copySource (t : Tree) (x : Transfer) (src : Loc) : Except Err Tree :=
   match t.get src.path, src.slash with
   | some (.file c), false =>            -- statfile succeeded, listfiles raised NotADirectoryError
     let fd := fullDest t x src
-    if fd.2 = some .dir then .error .isADir else writeFile t fd.1 c
+    if destStatFails t x then .error .notADir
+    else if fd.2 = some .dir then .error .isADir else writeFile t fd.1 c
   | some .dir, _ =>
     let fd := fullDest t x src
-    if fd.2 = some .file then .error .notADir else writeAll t fd.1 (filesUnder t src.path)
+    if destStatFails t x then .error .notADir
+    else if fd.2 = some .file then .error .notADir else writeAll t fd.1 (filesUnder t src.path)
   | _, _ => .error .notFound            -- missing, or a file named with a trailing slash
 
 /-- `Copier._copy_one_transfer` (`Transfer.__init__` rejects a source list with DEST_IS_TARGET) -/
